@@ -255,7 +255,7 @@ def _impl_one(case):
 # the property's oracle, on the real before / after files
 # ------------------------------------------------------------------------------------------------
 DEF_KINDS = ("FunctionDefinitionStart", "ClassDefinitionStart")
-PRIORITY = ["unaligned", "stray-arrow", "wrong-open-paren", "node-spans-two-definitions", "same-line-tail", "indent-sample-not-statement", "indent-under-4", "docstring-not-triple-quoted",
+PRIORITY = ["unaligned", "wrong-open-paren+stray-arrow", "stray-arrow", "wrong-open-paren", "node-spans-two-definitions", "docstring-node-overlong", "same-line-tail", "indent-sample-not-statement", "indent-under-4", "docstring-not-triple-quoted",
             "triple-quote-in-docstring", "header-last-node", "async-docstring-removed", "header-resynth",
             "docstring-removed", "return-type-changed"]
 
@@ -455,6 +455,10 @@ def align(nb, na, parses):
         if src_node is None:
             return ["header-last-node"]
         fl = []
+        if src_node["kind"] == "TripleQuoted" and src_node["value"].count('"' * 3) + src_node["value"].count("'" * 3) > 2:
+            # the scanner only ends a triple-quoted node on a line that ends with the quotes: `"""Doc."""  # noqa` runs on to the end of
+            # the *next* docstring, and replacing "the docstring" deletes everything in between
+            fl.append("docstring-node-overlong")
         if new_node["value"].count('"' * 3) > 2:
             # the replacement is always wrapped in three double quotes; text that itself contains them ends the string early
             fl.append("triple-quote-in-docstring")
@@ -487,6 +491,8 @@ def align(nb, na, parses):
                 fl.append("stray-arrow")
             if _wrong_open_paren(x["value"]):
                 fl.append("wrong-open-paren")
+                if "stray-arrow" in fl:
+                    fl.append("wrong-open-paren+stray-arrow")  # both ends of the replaced span are misplaced
             import re
 
             if len(re.findall(r"(?:^|\n)[ \t]*(?:(?:async[ \t]+)?def|class)[ \t]", x["value"])) > 1:
@@ -711,6 +717,9 @@ WITNESSES = [
     ("w-two-defs-wrong-signature", ["C07-two-definitions-one-node"],
      '@cache\ndef f1() -> int: ...  # stub\n@a.b\nasync def f2(a=1, *args) -> str:\n    """Do the thing.\n\n    Returns:\n      str: x\n    """\n    return None\n',
      ("google", True, None), None),
+    ("w-deco-paren-and-arrow", ["C07-paren-and-arrow-decorator", "C07-paren-and-arrow-lines"], "@dec()  # x -> y \ndef g(a: int):\n    return a\n", ("rest", False, None), None),
+    ("w-docstring-then-comment", ["C07-docstring-node-overlong"],
+     'class C:\n    """Doc."""  # noqa\n    def f(self, a):\n        """F doc."""\n        return a\n\ndef h(a):\n' + REST_DOC + "    return a\n", ("rest", True, None), None),
     ("w-header-comment", ["C07-resynth-comment"], "def f(\n    a,  # first\n):\n" + REST_DOC + "    pass\n", ("rest", True, None), "def f(a: int):"),
     ("w-tail-comment", ["C07-tail-invalid"], "def g(a):  # c\n    return a\n", ("rest", False, None), None),
     ("w-tail-docstring", ["C07-tail-statements", "C07-tail-lines"], 'def g(a):  # c\n  """Doc.\n\n  :param a: the a\n  :type a: ```int```\n  """\n  return a\n',
